@@ -4,7 +4,7 @@
    every run.  Tied to specs.py / runner.py / conventions.py by harness/props/c12.py. *)
 From Coq Require Import List ZArith Bool Arith.
 From YV Require Import Common.Corr Model.Resolution Model.Naming Gen.Registry
-                       Lemmas.ResolutionSpec Lemmas.ResolutionWinner Lemmas.ResolutionBind Lemmas.ResolutionRank Lemmas.ResolutionMap.
+                       Lemmas.ResolutionSpec Lemmas.ResolutionWinner Lemmas.ResolutionBind Lemmas.ResolutionRank Lemmas.ResolutionMap Lemmas.ResolutionWf Lemmas.ResolutionRegistry.
 Import ListNotations.
 Close Scope Z_scope.
 
@@ -114,6 +114,18 @@ Theorem C12_empty_slot_with_keyword_refuted :
   get_delegate sub6 (fab true) args kw = Some ([BVal (VObj 4); BVal (VObj 5)], []).
 Proof. vm_compute. repeat split; discriminate. Qed.
 
+(* the theorems above instantiated for EVERY definition of the standard library (their premises are
+   finite obligations over the regenerated registry): all split points of one assignment bind alike,
+   and under the pre-check guard map_args accepts or rejects them together *)
+Theorem C12_registry_spellings : forall f, In f reg_fdefs ->
+  forall (s : assignment) k1 k2, (forall n, s n <> Some ANoValue) -> k1 <= nvis (fparams f) -> k2 <= nvis (fparams f) ->
+  get_delegate reg_sub (fparams f) (spell_args (fparams f) s k1) (spell_kw (fparams f) s k1) =
+  get_delegate reg_sub (fparams f) (spell_args (fparams f) s k2) (spell_kw (fparams f) s k2) /\
+  (precheck_guard reg_sub (fparams f) s ->
+   (map_args reg_sub (fparams f) (spell_args (fparams f) s k1) (spell_kw (fparams f) s k1) <> None <->
+    map_args reg_sub (fparams f) (spell_args (fparams f) s k2) (spell_kw (fparams f) s k2) <> None)).
+Proof. exact registry_spellings. Qed.
+
 (* an omitted default and the same value given explicitly (plain or as a constant expression) deliver
    the same thing to an eagerly evaluated typed parameter *)
 Theorem C12_explicit_default : forall (sub : tag -> tag -> bool) p d t n,
@@ -215,6 +227,7 @@ Proof. vm_compute. repeat split. Qed.
 Print Assumptions C12_binding_depends_on_assignment.
 Print Assumptions C12_spellings_bind_equal.
 Print Assumptions C12_slots_increase.
+Print Assumptions C12_registry_spellings.
 Print Assumptions C12_spellings_map_exact.
 Print Assumptions C12_spellings_map_equal_guarded.
 Print Assumptions C12_spellings_map_monotone.
